@@ -31,12 +31,12 @@ func sprinkleNulls(t *rapid.T, v *ref.V, label string) {
 		}
 	}
 	if gen.OneIn(t, 4, label+"add") {
-		v.Set(rapid.SampledFrom(gen.Default.Keys).Draw(t, label+"k"), ref.Null())
+		v.Set(rapid.SampledFrom(gen.WithEmptyName.Keys).Draw(t, label+"k"), ref.Null())
 	}
 }
 
 func draw(t *rapid.T) Case {
-	c := gen.Default
+	c := gen.WithEmptyName
 	d := c.Value(3).Draw(t, "d")
 	if d.K == ref.KNull {
 		d = ref.Obj()
